@@ -216,7 +216,7 @@ fn negatives(i: &Item) -> Vec<Item> {
     let mut out = Vec::new();
     match i {
         Item::Tag(t, w, inner) => {
-            out.push(Item::tag(t + 1, (**inner).clone()));
+            out.push(Item::tag(if *t == u64::MAX { *t - 1 } else { *t + 1 }, (**inner).clone()));
             out.push((**inner).clone());
             for n in negatives(inner) {
                 out.push(Item::Tag(*t, *w, Box::new(n)));
